@@ -1188,7 +1188,7 @@ def search(ctx, seeds, full=False):
     todo = [(sd['value'], sd['spec']) for sd in seeds[:300] if 'spec' in sd and 'calls' not in sd]
     todo += [(v, s) for v, s, _ in fixed_cases()]
     # 2. single calls
-    n = (30000 if full else 6000) if ctx.quick else (150000 if full else 40000)
+    n = (25000 if full else 6000) if ctx.quick else (150000 if full else 40000)
     judged = 0
     for i in range(n + len(todo)):
         if len(fails) >= 5:
